@@ -31,6 +31,8 @@ type Solutions struct {
 
 // Close closes the Solutions and terminates the search for other solutions.
 func (s *Solutions) Close() error {
+	verifSolEvent(s, "close_start")
+	defer verifSolEvent(s, "close_end")
 	if s.closed {
 		return ErrClosed
 	}
@@ -42,6 +44,8 @@ func (s *Solutions) Close() error {
 // Next prepares the next solution for reading with the Scan method. It returns true if it finds another solution,
 // or false if there's no further solutions or if there's an error.
 func (s *Solutions) Next() bool {
+	verifSolEvent(s, "next_start")
+	defer verifSolEvent(s, "next_end")
 	if s.closed || s.done {
 		return false
 	}
